@@ -1,6 +1,7 @@
 package props
 
 import (
+	"fmt"
 	"encoding/json"
 	"errors"
 	"strings"
@@ -27,7 +28,7 @@ func init() {
 		Assumptions: []string{"when several options fail, the returned error must match at least one of the failing options' sentinel errors",
 			"variadic custom functions are outside the 'fixed parameter list' contract: only totality is required"},
 		Run:    runC17,
-		Checks: map[string]func(*core.Env, []json.RawMessage){"evalopts": replayC17Eval, "compopts": replayC17Comp, "contract": replayC17Contract},
+		Checks: map[string]func(*core.Env, []json.RawMessage){"evalopts": replayC17Eval, "compopts": replayC17Comp, "contract": replayC17Contract, "kinds": replayC17Kinds},
 		Threshold: func(m *core.Merged) []string {
 			var r []string
 			for _, k := range []string{"evalopts-ok", "evalopts-failing", "ErrExistingConstant", "ErrUnsupportedType", "compopts-ok", "compopts-failing", "nothing-evaluated", "custom-called", "context-identity", "unknown-variable", "spliced", "in-criteria"} {
@@ -485,6 +486,64 @@ func c17Contract(env *core.Env) {
 
 func replayC17Contract(env *core.Env, a []json.RawMessage) { c17Contract(env) }
 
+// c17Kinds: a System value of every type, an element of every FHIR datatype and a resource of every type are
+// valid variable values, alone and inside a collection, and evaluate to exactly the supplied value.
+func c17Kinds(env *core.Env) {
+	defer env.In("kinds")()
+	env.Case()
+	var vals []any
+	for _, e := range gen.StdEnv() {
+		if _, isColl := e.Value.(system.Collection); !isColl {
+			vals = append(vals, e.Value)
+		}
+	}
+	for _, src := range []string{"1", "1.5", "'s'", "true", "@2020-01-02", "@2020-01-02T10:00:00Z", "@T10:30", "5 'mg'"} {
+		if r := fx.E(env, src); r.IsValue() && len(r.Raw) == 1 {
+			vals = append(vals, r.Raw[0])
+		}
+	}
+	for _, md := range gen.DatatypeMessages() {
+		if md.IsMapEntry() || gen.IsContained(md) {
+			continue
+		}
+		m := gen.NewMessage(md)
+		if _, ok := m.Interface().(fhir.Base); ok && (gen.IsPrimitive(md) || gen.IsComplexType(md)) {
+			vals = append(vals, m.Interface())
+		}
+	}
+	for _, md := range gen.ResourceTypes() {
+		vals = append(vals, gen.NewMessage(md).Interface())
+	}
+	ex, cr := fx.Compile(env, "%v")
+	exC, _ := fx.Compile(env, "%c.count()")
+	if ex == nil || exC == nil {
+		env.Violatef("C17/harness-program-rejected", "`%%v` does not compile: %s", cr.Short())
+		return
+	}
+	for _, v := range vals {
+		env.Cover("variable-kind")
+		name := fmt.Sprintf("%T", v)
+		r := fx.Evaluate(env, ex, nil, evalopts.EnvVariable("v", v))
+		if r.IsPanic() {
+			env.Violatef(fx.PanicSig("C17", r), "EnvVariable of a %s => %s", name, r.Short())
+			continue
+		}
+		if !r.IsValue() {
+			env.Violatef("C17/variable/valid-kind-rejected", "a %s is a valid variable value, but evaluation fails: %s", name, trunc(r.Short(), 160))
+			continue
+		}
+		if ok, why := sameItems(r.Raw, system.Collection{v}); !ok {
+			env.Violatef("C17/variable/kind/wrong-value", "`%%v` with a %s: %s", name, why)
+		}
+		rc := fx.Evaluate(env, exC, nil, evalopts.EnvVariable("c", system.Collection{system.Integer(1), v, v}))
+		if it, ok := rc.Single(); !ok || it.T != "3" {
+			env.Violatef("C17/variable/valid-kind-rejected", "a collection holding a %s is a valid variable value, but `%%c.count()` => %s", name, trunc(rc.Short(), 160))
+		}
+	}
+}
+
+func replayC17Kinds(env *core.Env, a []json.RawMessage) { c17Kinds(env) }
+
 func lists(kinds []string, maxLen int, f func([]string)) {
 	var rec func(cur []string)
 	rec = func(cur []string) {
@@ -503,6 +562,10 @@ func runC17(env *core.Env) {
 	n := 0
 	if env.Mine(n) {
 		c17Contract(env)
+	}
+	n++
+	if env.Mine(n) {
+		c17Kinds(env)
 	}
 	lists(c17EvalKinds, env.Size(3, 4), func(l []string) {
 		n++
